@@ -1337,6 +1337,138 @@ theorem json_decoder_never_panics (s : Bytes) :
     unfold Codec.unescape
     exact aux_c_unescapeF_fuel _ _ _ _ (Nat.le_refl _) hf (by omega)
 
+/-! ### DecoderFor (model of C08) and the round-robin decoder (model of C13) -/
+
+/-- a `Read(p)` of the sniffing reader never returns more than `len(p)` bytes: the copy into
+`p` cannot overrun, whatever chunk sizes the underlying reader chooses -/
+theorem decoder_for_read_within_buffer (t : DecoderFor.Trial) (q : DecoderFor.ReadReq) :
+    (t.read q).1.length ≤ q.n := by
+  unfold DecoderFor.Trial.read
+  split
+  · simp
+  · split
+    · simp [DecoderFor.readMem]; omega
+    · simp only [DecoderFor.readUnder, DecoderFor.chunk, List.length_take]
+      split <;> (try split) <;> omega
+
+/-- **`DecoderFor` terminates and never panics for any behaviour of the trial decoders** (their
+read scripts — any sizes, any over-reading — and their verdicts are arbitrary parameters): the
+model has no failing operation (`sniffFrom` is a structural recursion over the list of
+factories, there is no index or slice expression of vegeta's own in `DecoderFor`); it runs the
+trials in order, stops at the first accepting one, and answers either `nil` after having run all
+of them or the index of an existing factory after having run exactly the trials up to it. -/
+theorem decoder_for_never_panics (orig : Bytes) (trials : List DecoderFor.TrialDec) :
+    match (DecoderFor.decoderFor orig trials).1 with
+    | none => (DecoderFor.decoderFor orig trials).2.length = trials.length ∧ ∀ d ∈ trials, d.accept = false
+    | some (i, _) => i < trials.length ∧ (DecoderFor.decoderFor orig trials).2.length = i + 1 ∧
+        (trials[i]?).map (·.accept) = some true := by
+  unfold DecoderFor.decoderFor
+  have key : ∀ (ds : List DecoderFor.TrialDec) (i0 : Nat) (s : DecoderFor.Sniff),
+      match (DecoderFor.sniffFrom i0 s ds).1 with
+      | none => (DecoderFor.sniffFrom i0 s ds).2.length = ds.length ∧ ∀ d ∈ ds, d.accept = false
+      | some (i, _) => i0 ≤ i ∧ i - i0 < ds.length ∧ (DecoderFor.sniffFrom i0 s ds).2.length = i - i0 + 1 ∧
+          (ds[i - i0]?).map (·.accept) = some true := by
+    intro ds
+    induction ds with
+    | nil => intro i0 s; simp [DecoderFor.sniffFrom]
+    | cons d ds ih =>
+      intro i0 s
+      unfold DecoderFor.sniffFrom
+      simp only []
+      by_cases ha : d.accept = true
+      · simp [ha]
+      · simp only [ha, Bool.false_eq_true, ↓reduceIte]
+        have := ih (i0 + 1) ((DecoderFor.Trial.start s).run d.script).2.st
+        cases hr : (DecoderFor.sniffFrom (i0 + 1) ((DecoderFor.Trial.start s).run d.script).2.st ds).1 with
+        | none =>
+          rw [hr] at this
+          simp only [] at this ⊢
+          refine ⟨by simp [this.1], ?_⟩
+          intro x hx; simp at hx; rcases hx with rfl | hx
+          · simpa using ha
+          · exact this.2 x hx
+        | some p =>
+          obtain ⟨i, st⟩ := p
+          rw [hr] at this
+          simp only [] at this ⊢
+          obtain ⟨h1, h2, h3, h4⟩ := this
+          refine ⟨by omega, by simp; omega, by simp [h3]; omega, ?_⟩
+          have : i - i0 = (i - (i0 + 1)) + 1 := by omega
+          rw [this]; simpa using h4
+  have := key trials 0 { buf := [], under := orig }
+  cases hr : (DecoderFor.sniffFrom 0 { buf := [], under := orig } trials).1 with
+  | none => rw [hr] at this; exact this
+  | some p =>
+    obtain ⟨i, st⟩ := p
+    rw [hr] at this
+    simp only [Nat.sub_zero] at this
+    exact ⟨this.2.1, this.2.2.1, this.2.2.2⟩
+
+/-! #### round robin, with the run-time checks written out -/
+
+/-- The `for range dec` loop of `NewRoundRobinDecoder` with Go's run-time checks as outcomes:
+`seq % uint64(len(dec))` panics on zero decoders, `dec[robin]` on an index out of range. -/
+def rrLoopChecked {α} : Nat → List (RoundRobin.Dec α) → Nat → Option Nat →
+    Outcome (RoundRobin.Step α × List (RoundRobin.Dec α) × Nat)
+  | 0, decs, seq, last =>
+    .ok (match last with
+         | some e => .err e
+         | none => .nothing, decs, seq)
+  | fuel+1, decs, seq, _ =>
+    if decs.length = 0 then .panic                      -- integer divide by zero
+    else
+      let robin := seq % decs.length
+      let seq' := RoundRobin.incSeq seq
+      match decs[robin]? with
+      | none => .panic                                   -- index out of range
+      | some d =>
+        match RoundRobin.pop d with
+        | (.ok a, d') => .ok (.got robin a, decs.set robin d', seq')
+        | (.error e, d') => rrLoopChecked fuel (decs.set robin d') seq' (some e)
+
+/-- **With at least one decoder the round-robin loop never panics**: none of its run-time
+checks can fail and it computes exactly what C13's model `rrLoop` computes — for any decoders
+(scripts), any sequence counter and any number of iterations. -/
+theorem round_robin_never_panics {α} (fuel : Nat) : ∀ (decs : List (RoundRobin.Dec α)) (seq : Nat) (last : Option Nat),
+    decs ≠ [] → rrLoopChecked fuel decs seq last = .ok (RoundRobin.rrLoop fuel decs seq last) := by
+  induction fuel with
+  | zero => intro decs seq last _; rfl
+  | succ f ih =>
+    intro decs seq last hne
+    have hlen : 0 < decs.length := List.length_pos_iff.mpr hne
+    have hlt : seq % decs.length < decs.length := Nat.mod_lt _ hlen
+    unfold rrLoopChecked RoundRobin.rrLoop
+    have h0 : ¬ decs.length = 0 := by omega
+    simp only [h0, ↓reduceIte, List.getElem?_eq_getElem hlt]
+    have hgd : decs.getD (seq % decs.length) [] = decs[seq % decs.length] := by
+      simp [List.getD, List.getElem?_eq_getElem hlt]
+    rw [hgd]
+    cases hp : RoundRobin.pop decs[seq % decs.length] with
+    | mk res d' =>
+      cases res with
+      | ok a => rfl
+      | error e =>
+        simp only []
+        apply ih
+        intro hnil
+        have : (decs.set (seq % decs.length) d').length = decs.length := by simp
+        rw [hnil] at this; simp at this; omega
+
+/-- `NewRoundRobinDecoder()` with zero decoders is outside the stated quantifier; in the real
+code the loop body never runs (`for range dec` over an empty slice), so no division is evaluated
+and the call returns a nil error without writing a result: the checked loop with zero iterations
+does not panic either, and C13's `rrDecode` answers `nothing`. -/
+theorem round_robin_zero_decoders {α} (seq : Nat) :
+    rrLoopChecked (α := α) 0 [] seq none = .ok (.nothing, [], seq) ∧
+    (RoundRobin.rrDecode (α := α) { decs := [], seq := seq }).1 = .nothing := by
+  exact ⟨rfl, rfl⟩
+
+/-- one `Decode` call of the combined decoder never panics with `n ≥ 1` decoders: the single
+decoder shortcut or the checked loop with `n` iterations -/
+theorem round_robin_decode_never_panics {α} (s : RoundRobin.RR α) (hne : s.decs ≠ []) :
+    rrLoopChecked s.decs.length s.decs s.seq none ≠ .panic := by
+  rw [round_robin_never_panics _ _ _ _ hne]; simp
+
 end others
 
 end Vegeta.Props.C16
